@@ -53,6 +53,21 @@ theorem settings_independent (m₁ m₂ : Marshaler) (C : Codecs) (hC : C.Lawful
     decode C (encode m₁ C c) = decode C (encode m₂ C c) := by
   rw [unmarshal_marshal_id m₁ C hC, unmarshal_marshal_id m₂ C hC]
 
+/-- **Marshal's result is a value.** Encoding a whole batch of commands and only afterwards
+decoding each entry gives back the batch: no entry is affected by the encoding of the
+others (in the model an entry is a byte list, so this is `map`; the harness holds the real
+byte slices of a batch, and of concurrent marshals, before decoding them, which is where an
+implementation that hands out shared buffers breaks). -/
+theorem batch_unmarshal_marshal_id (m : Marshaler) (C : Codecs) (hC : C.Lawful) (cs : List Cmd) :
+    (cs.map (encode m C)).map (decode C) = cs.map some := by
+  simp [List.map_map, Function.comp_def, unmarshal_marshal_id m C hC]
+
+/-- the i-th entry of a batch is the entry of the i-th command alone, whatever else is in
+the batch and in whatever order the batch is encoded -/
+theorem batch_entries_independent (m : Marshaler) (C : Codecs) (cs : List Cmd) (i : Nat) (h : i < cs.length) :
+    (cs.map (encode m C))[i]'(by simpa using h) = encode m C cs[i] := by
+  simp
+
 /-! ### compression rule -/
 
 /-- **compressed_only_if_smaller_or_forced.** If the entry is marked compressed then a
